@@ -497,6 +497,9 @@ struct WExp {
 }
 
 fn wtlfu_spec(pre: &Snap, probe: &Probe, op: Op, c: &mut Counters) -> Option<WExp> {
+    if probe.estimates.is_empty() {
+        return None; // the run did not ask for estimator probes
+    }
     let (w, pb, pt) = (&pre.lists[0], &pre.lists[1], &pre.lists[2]);
     let (cw, cb, ct) = (pre.scalars[0] as usize, pre.scalars[1] as usize, pre.scalars[2] as usize);
     Some(match op {
@@ -1174,8 +1177,9 @@ pub fn check_trans(cfg: &Cfg, pre: &Snap, probe: &Probe, op: Op, t: &TransRes, e
                 if let (Some(pe), Some(qe)) = (pe, qe) {
                     match op {
                         Op::Get(k) | Op::GetMut(k) | Op::GetMutW(k) => {
-                            let acc = &probe.est_after_access[k as usize];
-                            if !acc.iter().any(|a| a == qe) {
+                            let none = vec![];
+                            let acc = probe.est_after_access.get(k as usize).unwrap_or(&none);
+                            if !acc.is_empty() && !acc.iter().any(|a| a == qe) {
                                 out.push(Finding::new("C10", "get_records_one_access", op_name(&op), format!("estimator after the call is neither of the states one recorded access of key {} produces: {}", k, ctx(Some(post)))));
                             }
                         }
